@@ -20,13 +20,28 @@ def _solve_one(args):
     idx, timeout_ms, want_model = args
     ob = _OBS[idx]
     t0 = time.time()
-    s = z3.Solver()
-    s.set("timeout", timeout_ms)
-    s.add(z3.simplify(ob.formula()))
-    try:
-        r = s.check()
-    except z3.Z3Exception as e:  # pragma: no cover
-        return idx, "error:" + str(e)[:200], time.time() - t0, None, "z3"
+    f = z3.simplify(ob.formula())
+    # portfolio: quantifier instantiation is sensitive to incidental naming/ordering, so a VC that the
+    # default configuration leaves open is retried under other strategies before it counts as open
+    first = max(2000, timeout_ms // 4)
+    configs = [({}, first), ({"smt.mbqi": False}, first), ({"smt.random_seed": 1}, first),
+               ({"smt.random_seed": 2, "smt.mbqi": False}, first), ({"smt.random_seed": 3, "smt.qi.eager_threshold": 50.0}, first),
+               ({}, timeout_ms)]
+    r = z3.unknown
+    backend = "z3"
+    for k, (opts, ms) in enumerate(configs):
+        s = z3.Solver()
+        s.set("timeout", ms)
+        for o, v in opts.items():
+            s.set(o, v)
+        s.add(f)
+        try:
+            r = s.check()
+        except z3.Z3Exception as e:  # pragma: no cover
+            return idx, "error:" + str(e)[:200], time.time() - t0, None, "z3"
+        if r != z3.unknown:
+            backend = "z3" if k == 0 else f"z3[{k}]"
+            break
     res = str(r)
     model = None
     if r == z3.sat and want_model:
@@ -35,7 +50,6 @@ def _solve_one(args):
             model = extract_model(ob, m)
         except Exception as e:  # pragma: no cover
             model = {"__error__": str(e)[:200]}
-    backend = "z3"
     if r == z3.unknown:
         # second opinion: cvc5 binary on the same text
         try:
